@@ -222,8 +222,12 @@ class ExpGens:
             return expr
         sub = []
         for q, ax in divs.values():
-            eq = ax.arg(0)                      # q*b == a
-            sub.append((q, eq.arg(1) / eq.arg(0).arg(1)))
+            eq = ax.arg(0)                      # q*b == a   (either orientation)
+            l, r = eq.arg(0), eq.arg(1)
+            prod, a = (l, r) if (l.num_args() == 2 and (l.arg(0).eq(q) or l.arg(1).eq(q))) else (r, l)
+            assert prod.num_args() == 2 and z3.is_mul(prod), "unexpected quotient axiom %s" % ax
+            b = prod.arg(1) if prod.arg(0).eq(q) else prod.arg(0)
+            sub.append((q, a / b))
         for _ in range(6):
             new = z3.substitute(expr, *sub)
             if new.eq(expr):
